@@ -1,5 +1,5 @@
 SPECIFICATION Spec
-CONSTANTS K = 5  NP = 6  Continue = TRUE
+CONSTANTS K = 5  NP = 6  Continue = TRUE  AnyStart = FALSE
 CHECK_DEADLOCK FALSE
 INVARIANT IsPermutation
 INVARIANT NoDuplicates
